@@ -1271,7 +1271,9 @@ package mcp
 // ServerSession.Close (C05, and the link C11 relies on): the connection is closed exactly once per call, after the
 // pending subscriptions/listen handlers were cancelled; the onClose hook runs only after the connection is closed and
 // only for the caller that wins the atomic false->true swap of calledOnClose (so at most once per session).
-//@ func (*ServerSession).Close [C05, C11]
+//@ func (*ServerSession).Close [C05, C11, C13]
+//@   track ss.keepaliveCancel as stopKeepalive
+//@   ensures @closing-stops-keep-alive old(ss.keepaliveCancel != nil) ==> calls(stopKeepalive) == 1
 //@   track (*Connection).Close as closeConn
 //@   track (*Connection).Cancel as cancelListen
 //@   track CompareAndSwap as claim
@@ -1326,3 +1328,15 @@ package mcp
 //@ func (*Client).listRoots [C19]
 //@   modifies *
 //@   ensures @list-array-is-never-null result.1 == nil && result.0 != nil && result.0.Roots != nil
+
+// Server.Connect (C13): keep-alive is started, with the configured interval, exactly when one is configured, and
+// before the session is handed to the caller.
+//@ func (*Server).Connect [C13]
+//@   track connect as dial
+//@   track (*ServerSession).startKeepalive as keepalive
+//@   requires s != nil
+//@   modifies *
+//@   ensures @keep-alive-started-iff-configured result.1 == nil ==> calls(keepalive) <= 1 && (calls(keepalive) == 1 <==> at(dialled, s.opts.KeepAlive) > 0)
+//@   ensures @keep-alive-is-for-the-returned-session calls(keepalive) == 1 ==> callArg(keepalive, 1, 0) == result.0 && result.0 == callResult(dial, 1, 0)
+//@   ensures @failed-connect-starts-nothing result.1 != nil ==> calls(keepalive) == 0 && result.0 == nil
+//@   snapshot dialled after call filterSupportedVersions
